@@ -110,10 +110,12 @@ struct ArgDef {
   std::string pairFormat;     // key-value kinds: "" = default
   std::vector<std::pair<int, int>> constraints;   // (ConstraintType, index of the other argument)
   std::string desc;           // description (usage tests)
-  bool printDefault = false;
+  int printDefault = 0;       // 0: leave the library default, 1: setPrintDefault(true), 2: setPrintDefault(false)
 };
 struct HConstraint { int type = 0; std::vector<int> args; };
 // handler flags (our own bit numbering, mapped to Celma's in the real part)
+// bits 20..27 of Config::flags: usage line length (0 = default)
+inline int usageLineLength(int flags) { return (flags >> 20) & 0xff; }
 enum Flag { F_NO_ABBR = 1, F_END_VALUES = 2, F_HELP_SHORT = 4, F_HELP_LONG = 8, F_HELP_ARG = 16, F_HELP_ARG_FULL = 32,
             F_USAGE_HIDDEN = 64, F_ARG_HIDDEN = 128, F_USAGE_DEPRECATED = 256, F_ARG_DEPRECATED = 512,
             F_USAGE_SHORT = 1024, F_USAGE_LONG = 2048, F_LIST_ARG_VAR = 4096, F_VERBOSE = 8192,
@@ -596,7 +598,7 @@ inline Config readConfig(verif::Reader &r) {
     a.mandatory = r.u(); a.hidden = r.u(); a.deprecated = r.u(); a.replacedBy = r.s(); a.optionalValue = r.u(); a.format = static_cast<int>(r.u());
     a.cardKind = static_cast<int>(r.u()); a.cardA = static_cast<int>(r.i()); a.cardB = static_cast<int>(r.i()); a.listSep = static_cast<char>(r.u());
     a.multiValue = r.u(); a.clearFirst = r.u(); a.sort = r.u(); a.unique = static_cast<int>(r.u()); a.unsetFlag = r.u(); a.pairFormat = r.s();
-    a.printDefault = r.u(); a.desc = r.s();
+    a.printDefault = static_cast<int>(r.u()); a.desc = r.s();
     size_t nc = r.u();
     for (size_t j = 0; j < nc; ++j) { Check ch; ch.type = static_cast<int>(r.u()); ch.a = r.s(); ch.b = r.s(); a.checks.push_back(ch); }
     size_t nct = r.u();
